@@ -56,7 +56,10 @@ ASSUMPTIONS = [
     "FreeSurface.shifts is documented as 'all shift values that place the fault halfway between atomic layers': "
     "halfway and completeness are asserted, not only 'strictly between'",
     "an atom whose coordinate equals the fault position exactly is not 'above' the plane (docstring of fault/abovefault) "
-    "and must stay; atoms within 1e-9 of the plane but not exactly on it are exempt",
+    "and must stay; this is asserted only when every atom within 1e-7 x width of the plane in force equals faultpos_cart as a "
+    "float (the numbers atomman itself compares); a case with an atom inside that band but not exactly on the plane is outside "
+    "the property's domain ('fault positions lying between atomic layers'): labelled atom_on_fault_plane_exempt, no "
+    "moved / stayed / restoration assertion, share guarded",
     "unit cells whose atomic layers along the plane normal are closer than 1e-4 A without coinciding (1e-9) are exempt "
     "from the layer-counting assertions",
     "what persists between calls on one object is taken from the docstrings only: surface() without shift / shiftindex uses "
@@ -460,6 +463,9 @@ _mult_in = st.sampled_from([1, 1, 2, 2, 3, -1, -2, [0, 2], [-1, 1], [-1, 2], [0,
 _mult_cut = st.sampled_from([1, 1, 2, 2, 3, 3, 4, 5, -1, -2, -3])
 _width = st.integers(0, 4000).map(lambda k: round(1.0 + k / 100.0, 2))
 _vac = st.sampled_from([0.0, 5.0, 10.0, 7.25, 0.5, 12.345, 3.3])
+# minwidth for the judged surface() call: Hypothesis' integers() favour small values, which seldom exceed sizemult x cell width;
+# half of the draws come from a spread list so that 'minwidth decides the multiplier' is frequent by construction
+_width_s = st.one_of(st.sampled_from([3.7, 6.1, 8.25, 12.5, 17.0, 23.4, 29.9]), _width)
 
 
 # ---- object history: earlier (un-judged) surface() calls on the same object, cheap arguments
@@ -541,7 +547,7 @@ def surface_cases(draw):
     prior = [_draw_step(draw, ci) for _ in range(draw(_nprior))]
     case = {'ucell': u, 'hkl': hkl, 'cut': cut,
             'sizemults': mults if draw(_int10) < 8 else None,
-            'minwidth': draw(_width) if draw(_int10) < 4 else None,
+            'minwidth': draw(_width_s) if draw(_int10) < 4 else None,
             'even': draw(_int10) < 3,
             'vacuum': draw(_vac) if draw(_int10) < 5 else None,
             'shiftsel': draw(st.integers(0, 1000)),
@@ -956,6 +962,7 @@ def oracle_surface(case):
 # ----------------------------------------------------------------------------- fault
 
 AIDX = {'a': (1, 2), 'b': (2, 0), 'c': (0, 1)}
+FAULT_BAND = 1e-7          # x cell width along the cut: far above rounding (1e-16 relative), far below any generated layer spacing
 _frac15 = st.integers(-1500, 1500).map(lambda k: k / 1000.0)
 _gapfrac = st.sampled_from([0.5, 0.5, 0.25, 0.8, 0.1, 0.37])
 _small = st.integers(-2, 2)
@@ -1300,14 +1307,20 @@ def oracle_fault(case):
     require(abs(fpc - fpv) <= 1e-9 * max(1.0, abs(fpv), width), lambda: '%s: faultpos_cart %.12g, requested position %.12g' % (w1, fpc, fpv))
     fpr = float(sf.faultpos_rel)
     require(abs(fpr - (fpv - o[ci]) / width) <= 1e-9, lambda: '%s: faultpos_rel %.12g for position %.12g in [%.12g, %.12g]' % (w1, fpr, fpv, o[ci], o[ci] + width))
-    band = 1e-9 * max(1.0, width)
-    side = np.where(x > fpc + band, 1, np.where(x < fpc - band, 0, -1))
-    onp = (side == -1) & (x == fpc)
-    side[onp] = 0
-    if onp.any():
+    # domain: 'fault-plane positions lying between atomic layers'.  An atom within BAND of the plane in force (given, defaulted
+    # or reached through the object's history) without being on it EXACTLY (float equality of the very numbers atomman compares)
+    # puts the case out of domain: rounding decides atom by atom which side it is on.  Only the shift-independent assertions
+    # are then made.  An atomic plane exactly on the fault plane (all of its atoms equal to faultpos_cart) stays: 'above' is strict
+    band = FAULT_BAND * max(1.0, width)
+    near = np.abs(x - fpc) <= band
+    exact = near & (x == fpc)
+    out_of_domain = bool((near & ~exact).any())
+    side = np.where(exact, 0, np.where(x > fpc, 1, 0))
+    if out_of_domain:
+        side[near] = -1
+        labels.add('atom_on_fault_plane_exempt')
+    elif exact.any():
         labels.add('onplane_exact')
-    if (side == -1).any():
-        labels.add('band_exempt')
     mask = np.asarray(sf.abovefault)
     require(mask.shape == (len(x),) and np.array_equal(mask[side >= 0], side[side >= 0] == 1),
             lambda: '%s: abovefault does not mark exactly the atoms above %.9g' % (w1, fpc))
@@ -1319,6 +1332,9 @@ def oracle_fault(case):
     for i in geo.inpl:
         require(np.abs(Bf[i] - B[i]).max() <= 1e-9 * geo.L * max(1.0, np.abs(B[i]).max() / geo.L), lambda: '%s: in-plane box vector %d changed: %r -> %r' % (w1, i, B[i].tolist(), Bf[i].tolist()))
     require(np.array_equal(np.asarray(sf.system.atoms.pos), base), lambda: '%s modified the stored surface system' % w1)
+    if out_of_domain:
+        labels.add('fpos_' + mode)
+        return labels
     delta = displacement_check(base, new, side, expected, B, ci, tol, w1, common_delta=case['minimum_r'] is not None)
     require(delta >= -tol, lambda: '%s: minimum_r pulled the upper part towards the plane (extra out-of-plane shift %.3g)' % (w1, delta))
     if delta > tol:
@@ -1374,7 +1390,7 @@ CLAUSES = [
            min_share={'nt': 0.35, 'centred': 0.1, 'rigid_rot': 0.15}, max_share={'refusal': 0.15},
            desc='the same oracle on random cells of every family / centred setting (30 % rigidly rotated), planes up to index 4'),
     Clause('surface', oracle_surface, surface_cases, quick=570, thorough=10000,
-           min_share={'nt': 0.2, 'built': 0.4, 'multilayer': 0.2, 'multishift': 0.3, 'vacuum': 0.12, 'minwidth_decides': 0.03,
+           min_share={'nt': 0.2, 'built': 0.4, 'multilayer': 0.2, 'multishift': 0.3, 'vacuum': 0.12, 'minwidth_decides': 0.06,
                       'negmult': 0.12, 'tuplemult': 0.12, 'centred': 0.12, 'hex4': 0.02, 'cut_a': 0.07, 'cut_b': 0.07,
                       'history_second_surface': 0.26, 'history_third_surface': 0.1, 'history_shift_persisted': 0.07,
                       'history_set_shift': 0.16, 'history_defaults_after_given': 0.14},
@@ -1391,7 +1407,7 @@ CLAUSES = [
                       'history_faultpos_defaulted_after_default': 0.025, 'history_natoms_changed': 0.23,
                       'history_setter_faultpos': 0.12, 'history_fault_between': 0.075, 'history_setter_avect': 0.02,
                       'history_shift_persisted': 0.05, 'history_set_shift': 0.17, 'history_pre_fault': 0.08},
-           max_share={'refusal_search': 0.25, 'refusal_cut': 0.4, 'c04_filtering_skip': 0.02},
+           max_share={'refusal_search': 0.25, 'refusal_cut': 0.4, 'c04_filtering_skip': 0.02, 'atom_on_fault_plane_exempt': 0.15},
            desc='StackingFault.fault: atoms not above the plane stay, atoms above move by a1*a1vect + a2*a2vect + outofplane (or the '
                 'given faultshift) modulo the in-plane cell vectors; full lattice vectors restore the slab; fault positions between '
                 'layers (cart/rel/default, at surface() or fault()); user shift vectors; refusals; iterfaultmap grid; in half of the '
